@@ -46,6 +46,7 @@ func runPlan(args []string) error {
 	tlc := fs.String("tlc", "", "symbolic scripts emitted by TLC (ndjson), optional")
 	nrand := fs.Int("rand", 0, "number of additional seeded random scripts")
 	length := fs.Int("len", 12, "updates per random script")
+	nshrink := fs.Int("shrink", 1, "number of grow-then-shrink scripts")
 	big := fs.Bool("big", false, "large payloads")
 	out := fs.String("out", "scripts.ndjson", "concrete scripts (ndjson)")
 	if err := fs.Parse(args); err != nil {
@@ -61,6 +62,9 @@ func runPlan(args []string) error {
 		syms = append(syms, s...)
 	}
 	r := rand.New(rand.NewSource(seed*1000003 + 17))
+	for i := 0; i < *nshrink; i++ {
+		syms = append(syms, ShrinkSym(r))
+	}
 	for i := 0; i < *nrand; i++ {
 		syms = append(syms, RandomSym(r, *length))
 	}
